@@ -312,3 +312,83 @@ Definition m_xsitype (d : N) (eb tb : blockset) (abstract : bool) (up : ancestry
   if abstract then false                              (* NoAbstractInXsiType *)
   else if m_find_decl d up then m_block_loop d eb tb up
   else false.                                         (* NonDerivedXsiType *)
+
+(** * SubstitutionGroupComparator::isEquivalentTo (complex types) *)
+Definition bor (a b : blockset) : blockset := {| bk_ext := bk_ext a || bk_ext b; bk_restr := bk_restr a || bk_restr b |}.
+(** while (pElemDecl) { if (pElemDecl is the exemplar) ... ; pElemDecl = pElemDecl->getSubstitutionGroupElem(); } *)
+Fixpoint m_find_head (head : N) (affil : list N) : bool :=
+  match affil with [] => false | h :: r => if (h =? head)%N then true else m_find_head head r end.
+(** while (tempType != 0 && tempType != exemplarComplexType) { devMethod |= tempType->getDerivedBy();
+    tempType = tempType->getBaseComplexTypeInfo(); if (tempType) blockConstraint |= tempType->getBlockSet(); }
+    None: the walk ended at 0 (tempType != exemplarComplexType) *)
+Fixpoint m_sg_walk (ht : N) (up : typechain) (dev : list dmethod) (blk : blockset) : option (list dmethod * blockset) :=
+  match up with
+  | [] => None
+  | e :: r =>
+      if (tc_id e =? ht)%N then Some (dev, blk)
+      else match r with
+           | [] => None
+           | e' :: _ => m_sg_walk ht r (tc_method e :: dev) (bor blk (tc_block e'))
+           end
+  end.
+Definition m_subst (member head : N) (affil : list N) (hb : eblock) (ht : N) (up : typechain) : bool :=
+  if (member =? head)%N then true
+  else if m_find_head head affil then
+    if eb_subst hb then false
+    else match m_sg_walk ht up [] (eb_types hb) with
+         | None => false
+         | Some (dev, blk) => negb (existsb (blocked blk) dev)
+         end
+  else false.
+
+(** * TraverseSchema::attWildCardIntersection / attWildCardUnion.  [None] = AttTypes_Unknown (not expressible) *)
+Definition m_wc_inter (r c : nsc) : option nsc :=
+  match r, c with
+  | _, NsAny => Some r
+  | NsAny, _ => Some c
+  | NsNot u, NsSet l | NsSet l, NsNot u =>
+      Some (NsSet (filter (fun x => negb (x =? u)%N && negb (x =? 1)%N) l))
+  | NsSet lr, NsSet lc => Some (NsSet (filter (fun x => mem_uri x lr) lc))
+  | NsNot u, NsNot v =>
+      if (u =? v)%N then Some (NsNot u)
+      else if (u =? 1)%N then Some (NsNot v)
+      else if (v =? 1)%N then Some (NsNot u)
+      else None
+  end.
+Definition m_wc_union (r c : nsc) : option nsc :=
+  match r, c with
+  | NsAny, _ => Some NsAny
+  | _, NsAny => Some NsAny
+  | NsSet lr, NsSet lc => Some (NsSet (lr ++ filter (fun x => negb (mem_uri x lr)) lc))
+  | NsNot u, NsNot v => if (u =? v)%N then Some (NsNot u) else Some (NsNot 1%N)
+  | NsNot u, NsSet l | NsSet l, NsNot u =>
+      if (u =? 1)%N then (if mem_uri 1%N l then Some NsAny else Some (NsNot 1%N))
+      else match mem_uri 1%N l, mem_uri u l with
+           | true, true => Some NsAny
+           | false, true => Some (NsNot 1%N)
+           | true, false => None
+           | false, false => Some (NsNot u)
+           end
+  end.
+(** a combination evaluated the way traverseComplexTypeDecl / processAttributes do: Unknown is absorbing *)
+Fixpoint m_wexpr (e : wexpr) : option nsc :=
+  match e with
+  | WLeaf c => Some c
+  | WInter a b => match m_wexpr a, m_wexpr b with Some x, Some y => m_wc_inter x y | _, _ => None end
+  | WUnion a b => match m_wexpr a, m_wexpr b with Some x, Some y => m_wc_union x y | _, _ => None end
+  end.
+
+(** the unrepaired tree (known finding C08-attwild-anylist): when the wildcard being completed is ##any and the other one
+    a namespace list, attWildCardIntersection copies type and URI of the list wildcard (copyWildCardData) but not its
+    namespace list, after resetNamespaceList(): the result is a list wildcard that allows nothing *)
+Definition m_wc_inter_faithful (r c : nsc) : option nsc :=
+  match r, c with
+  | NsAny, NsSet (_ :: _) => Some (NsSet [])
+  | _, _ => m_wc_inter r c
+  end.
+Fixpoint m_wexpr_faithful (e : wexpr) : option nsc :=
+  match e with
+  | WLeaf c => Some c
+  | WInter a b => match m_wexpr_faithful a, m_wexpr_faithful b with Some x, Some y => m_wc_inter_faithful x y | _, _ => None end
+  | WUnion a b => match m_wexpr_faithful a, m_wexpr_faithful b with Some x, Some y => m_wc_union x y | _, _ => None end
+  end.
